@@ -63,6 +63,10 @@ REPLAY_HOOKS = {
         ("pub(crate) fn sample_limit<R: RngCore>(&self, rng: &mut R) -> u64 {",
          _hook("crate::framework::verif_kani::replay_limit_hook(self, rng)")),
     ],
+    "crates/maybenot/src/machine.rs": [
+        ("pub fn validate(&self) -> Result<(), Error> {",
+         _hook("crate::framework::verif_kani::replay_machine_validate_hook(self)")),
+    ],
     "crates/maybenot/src/counter.rs": [
         ("pub fn sample_value<R: RngCore>(&self, rng: &mut R) -> u64 {",
          _hook("crate::framework::verif_kani::replay_value_hook(self, rng)")),
